@@ -78,6 +78,8 @@ func runStoresHistory() int {
 				cert = histUnrelated().Root()
 			case "tsaRoot":
 				cert = tsaGood().chain.Root()
+			case "leafOnly":
+				cert = signerChain.Leaf()
 			}
 			must(os.WriteFile(filepath.Join(d, "cert.pem"), pem.EncodeToMemory(&pem.Block{Type: "CERTIFICATE", Bytes: cert.Raw}), 0644))
 		}
